@@ -72,12 +72,13 @@ class Chooser(object):
     """Maps the reference encoder's field requests to choice points of an E1 context."""
 
     def __init__(self, ctx, nsub, compressed, thorough=False, nbinc_choice=False, factor_kind='S',
-                 share_structure=False):
+                 share_structure=False, struct_nbinc=False):
         self.ctx, self.nsub, self.comp = ctx, nsub, compressed
         self.fopts = FACTOR_OPTS_THOROUGH if thorough else FACTOR_OPTS
         self.nbinc_choice = nbinc_choice
         self.factor_kind = factor_kind
         self.share = share_structure       # uncompressed: all subsets take subset 0's structure data
+        self.struct_nbinc = struct_nbinc   # compressed: structure columns (constant by nature) may be written the long way
         self.struct = {}
 
     def __call__(self, info):
@@ -96,6 +97,10 @@ class Chooser(object):
             else:
                 v = opts[ctx.pick('st.' + tag, len(opts), self.factor_kind)]
                 self.struct[info['index']] = v
+            if self.comp and self.struct_nbinc and kind != 'refdef':
+                k = [0, 1, 3][ctx.pick('nbs.' + tag, 3, 'D')]
+                if k:
+                    return [v] * self.nsub, ('force', k)
             return [v] * self.nsub if self.comp else v
         if kind == 'str':
             nb = w // 8
@@ -127,10 +132,10 @@ def tables_for(version=33, local=None):
 
 
 def build_message(ctx, descs, nsub=1, compressed=False, edition=4, version=33, sec2=None, thorough=False,
-                  nbinc_choice=False, share_structure=False, meta=None):
+                  nbinc_choice=False, share_structure=False, meta=None, struct_nbinc=False):
     """-> (bytes, spec, expected subsets, notes) ; raises codec.RefError if the template is outside the model"""
     B, D = tables_for(version)
-    ch = Chooser(ctx, nsub, compressed, thorough, nbinc_choice, share_structure=share_structure)
+    ch = Chooser(ctx, nsub, compressed, thorough, nbinc_choice, share_structure=share_structure, struct_nbinc=struct_nbinc)
     buf, subs, notes, nbincs = codec.encode(B, D, descs, nsub, compressed, ch)
     m = {'master_table_version': version}
     if meta:
